@@ -198,8 +198,8 @@ def _run_chunks(cmd, lines, jobs, timeout, preexec):
         jobs = max(1, min(jobs, len(lines)))
     else:
         jobs = max(1, min(NCPU, len(lines) // 50 + 1))
-    n = len(lines)
-    chunks = [lines[i * n // jobs:(i + 1) * n // jobs] for i in range(jobs)]
+    # round-robin: expensive cases that the generators emit next to each other are spread over the processes
+    chunks = [lines[i::jobs] for i in range(jobs)]
     procs = []
     for ch in chunks:
         p = subprocess.Popen(cmd, stdin=subprocess.PIPE, stdout=subprocess.PIPE, text=True,
@@ -223,13 +223,13 @@ def _run_chunks(cmd, lines, jobs, timeout, preexec):
         t.start()
     for t in ths:
         t.join()
-    res = []
+    res = [None] * len(lines)
     for i, (p, ch) in enumerate(procs):
         o = outs[i] or []
         if len(o) != len(ch):
             # a crash (abort, stack overflow) loses the tail: mark the first unanswered case
             o = o + ["CRASH rc=%s" % p.returncode] + ["SKIPPED"] * (len(ch) - len(o) - 1)
-        res.extend(o)
+        res[i::jobs] = o
     return res
 
 
